@@ -161,31 +161,31 @@ macro_rules! ser_fixed_unit {
         }
     };
 }
-// @unit C01.ser_u8 props=C01,C02 kind=complete fn=<&mut.zvariant::dbus::Serializer.as.serde::Serializer>::serialize_u8,zvariant::ser::SerializerCommon::prep_serialize_basic timeout=600
+// @unit C01.ser_u8 props=C01 kind=complete fn=<&mut.zvariant::dbus::Serializer.as.serde::Serializer>::serialize_u8,zvariant::ser::SerializerCommon::prep_serialize_basic timeout=600
 ser_fixed_unit!(c01_ser_u8__complete, u8, b'y', &SIG_Y, serialize_u8, |v| v as u64,
     "C01.ser_u8.ok", "C01.ser_u8.advance", "C01.ser_u8.padding_zero", "C01.ser_u8.value_bytes", "C01.ser_u8.frame");
-// @unit C01.ser_bool props=C01,C02 kind=complete fn=<&mut.zvariant::dbus::Serializer.as.serde::Serializer>::serialize_bool timeout=600
+// @unit C01.ser_bool props=C01 kind=complete fn=<&mut.zvariant::dbus::Serializer.as.serde::Serializer>::serialize_bool timeout=600
 ser_fixed_unit!(c01_ser_bool__complete, bool, b'b', <bool as Type>::SIGNATURE, serialize_bool, |v| v as u64,
     "C01.ser_bool.ok", "C01.ser_bool.advance", "C01.ser_bool.padding_zero", "C01.ser_bool.value_bytes", "C01.ser_bool.frame");
-// @unit C01.ser_i16 props=C01,C02 kind=complete fn=<&mut.zvariant::dbus::Serializer.as.serde::Serializer>::serialize_i16 timeout=600
+// @unit C01.ser_i16 props=C01 kind=complete fn=<&mut.zvariant::dbus::Serializer.as.serde::Serializer>::serialize_i16 timeout=600
 ser_fixed_unit!(c01_ser_i16__complete, i16, b'n', <i16 as Type>::SIGNATURE, serialize_i16, |v| v as u16 as u64,
     "C01.ser_i16.ok", "C01.ser_i16.advance", "C01.ser_i16.padding_zero", "C01.ser_i16.value_bytes", "C01.ser_i16.frame");
-// @unit C01.ser_u16 props=C01,C02 kind=complete fn=<&mut.zvariant::dbus::Serializer.as.serde::Serializer>::serialize_u16 timeout=600
+// @unit C01.ser_u16 props=C01 kind=complete fn=<&mut.zvariant::dbus::Serializer.as.serde::Serializer>::serialize_u16 timeout=600
 ser_fixed_unit!(c01_ser_u16__complete, u16, b'q', <u16 as Type>::SIGNATURE, serialize_u16, |v| v as u64,
     "C01.ser_u16.ok", "C01.ser_u16.advance", "C01.ser_u16.padding_zero", "C01.ser_u16.value_bytes", "C01.ser_u16.frame");
-// @unit C01.ser_i32 props=C01,C02 kind=complete fn=<&mut.zvariant::dbus::Serializer.as.serde::Serializer>::serialize_i32 timeout=600
+// @unit C01.ser_i32 props=C01 kind=complete fn=<&mut.zvariant::dbus::Serializer.as.serde::Serializer>::serialize_i32 timeout=600
 ser_fixed_unit!(c01_ser_i32__complete, i32, b'i', &SIG_I, serialize_i32, |v| v as u32 as u64,
     "C01.ser_i32.ok", "C01.ser_i32.advance", "C01.ser_i32.padding_zero", "C01.ser_i32.value_bytes", "C01.ser_i32.frame");
-// @unit C01.ser_u32 props=C01,C02 kind=complete fn=<&mut.zvariant::dbus::Serializer.as.serde::Serializer>::serialize_u32 timeout=600
+// @unit C01.ser_u32 props=C01 kind=complete fn=<&mut.zvariant::dbus::Serializer.as.serde::Serializer>::serialize_u32 timeout=600
 ser_fixed_unit!(c01_ser_u32__complete, u32, b'u', &SIG_U, serialize_u32, |v| v as u64,
     "C01.ser_u32.ok", "C01.ser_u32.advance", "C01.ser_u32.padding_zero", "C01.ser_u32.value_bytes", "C01.ser_u32.frame");
-// @unit C01.ser_i64 props=C01,C02 kind=complete fn=<&mut.zvariant::dbus::Serializer.as.serde::Serializer>::serialize_i64 timeout=600
+// @unit C01.ser_i64 props=C01 kind=complete fn=<&mut.zvariant::dbus::Serializer.as.serde::Serializer>::serialize_i64 timeout=600
 ser_fixed_unit!(c01_ser_i64__complete, i64, b'x', <i64 as Type>::SIGNATURE, serialize_i64, |v| v as u64,
     "C01.ser_i64.ok", "C01.ser_i64.advance", "C01.ser_i64.padding_zero", "C01.ser_i64.value_bytes", "C01.ser_i64.frame");
-// @unit C01.ser_u64 props=C01,C02 kind=complete fn=<&mut.zvariant::dbus::Serializer.as.serde::Serializer>::serialize_u64 timeout=600
+// @unit C01.ser_u64 props=C01 kind=complete fn=<&mut.zvariant::dbus::Serializer.as.serde::Serializer>::serialize_u64 timeout=600
 ser_fixed_unit!(c01_ser_u64__complete, u64, b't', &SIG_T, serialize_u64, |v| v,
     "C01.ser_u64.ok", "C01.ser_u64.advance", "C01.ser_u64.padding_zero", "C01.ser_u64.value_bytes", "C01.ser_u64.frame");
-// @unit C01.ser_f64 props=C01,C02 kind=complete fn=<&mut.zvariant::dbus::Serializer.as.serde::Serializer>::serialize_f64 timeout=600
+// @unit C01.ser_f64 props=C01 kind=complete fn=<&mut.zvariant::dbus::Serializer.as.serde::Serializer>::serialize_f64 timeout=600
 ser_fixed_unit!(c01_ser_f64__complete, f64, b'd', <f64 as Type>::SIGNATURE, serialize_f64, |v| v.to_bits(),
     "C01.ser_f64.ok", "C01.ser_f64.advance", "C01.ser_f64.padding_zero", "C01.ser_f64.value_bytes", "C01.ser_f64.frame");
 
@@ -357,13 +357,13 @@ macro_rules! ser_seq_unit {
         }
     };
 }
-// @unit C01.ser_seq.at props=C01,C07 kind=complete fn=<&mut.zvariant::dbus::Serializer.as.serde::Serializer>::serialize_seq timeout=900
+// @unit C01.ser_seq.at props=C02,C01,C07 kind=complete fn=<&mut.zvariant::dbus::Serializer.as.serde::Serializer>::serialize_seq timeout=900
 ser_seq_unit!(c01_ser_seq_at__complete, &SIG_AT, &SIG_T, 8, "C01.ser_seq.at.ok_iff_depth_within_limits", "C01.ser_seq.at.header_bytes_zero",
     "C01.ser_seq.at.start_and_first_padding", "C01.ser_seq.at.signature_switch", "C01.ser_seq.at.depth_incremented", "C01.ser_seq.at.frame");
-// @unit C01.ser_seq.au props=C01,C07 kind=complete fn=<&mut.zvariant::dbus::Serializer.as.serde::Serializer>::serialize_seq timeout=900
+// @unit C01.ser_seq.au props=C02,C01,C07 kind=complete fn=<&mut.zvariant::dbus::Serializer.as.serde::Serializer>::serialize_seq timeout=900
 ser_seq_unit!(c01_ser_seq_au__complete, &SIG_AU, &SIG_U, 4, "C01.ser_seq.au.ok_iff_depth_within_limits", "C01.ser_seq.au.header_bytes_zero",
     "C01.ser_seq.au.start_and_first_padding", "C01.ser_seq.au.signature_switch", "C01.ser_seq.au.depth_incremented", "C01.ser_seq.au.frame");
-// @unit C01.ser_seq.dict props=C01,C07 kind=complete fn=<&mut.zvariant::dbus::Serializer.as.serde::Serializer>::serialize_seq timeout=900
+// @unit C01.ser_seq.dict props=C02,C01,C07 kind=complete fn=<&mut.zvariant::dbus::Serializer.as.serde::Serializer>::serialize_seq timeout=900
 ser_seq_unit!(c01_ser_seq_dict__complete, &SIG_DICT_IH, &SIG_I, 8, "C01.ser_seq.dict.ok_iff_depth_within_limits", "C01.ser_seq.dict.header_bytes_zero",
     "C01.ser_seq.dict.start_and_first_padding", "C01.ser_seq.dict.signature_switch", "C01.ser_seq.dict.depth_incremented", "C01.ser_seq.dict.frame");
 
@@ -375,7 +375,7 @@ ser_seq_unit!(c01_ser_seq_dict__complete, &SIG_DICT_IH, &SIG_I, 8, "C01.ser_seq.
 // ensures  Ok(()); length slot := alen (EXCLUDING first_padding) in the context's byte order, at
 //          wpos - alen - first_padding - 4; every other byte unchanged; writer position restored;
 //          array depth - 1; signature restored to the array's
-// @unit C01.end_seq props=C01,C07 kind=complete fn=zvariant::dbus::ser::SeqSerializer::end_seq timeout=900
+// @unit C01.end_seq props=C02,C01,C07 kind=complete fn=zvariant::dbus::ser::SeqSerializer::end_seq timeout=900
 #[cfg(kani)]
 #[kani::proof]
 #[kani::stub(alloc::fmt::format, stub_format)]
@@ -471,11 +471,11 @@ macro_rules! struct_open_unit {
         }
     };
 }
-// @unit C07.struct_ser.variant props=C07,C01 kind=complete fn=zvariant::dbus::ser::StructSerializer::variant,zvariant::dbus::ser::StructSerializer::end_struct timeout=600
+// @unit C07.struct_ser.variant props=C02,C07,C01 kind=complete fn=zvariant::dbus::ser::StructSerializer::variant,zvariant::dbus::ser::StructSerializer::end_struct timeout=600
 struct_open_unit!(c07_struct_ser_variant__complete, variant, &SIG_V, 0, 1,
     "C07.struct_ser.variant.ok_iff_within_limits", "C07.struct_ser.variant.depth_incremented", "C07.struct_ser.variant.saved_depth_is_original",
     "C07.struct_ser.variant.end_struct_restores_original_depth", "C07.struct_ser.variant.writes_nothing");
-// @unit C07.struct_ser.structure props=C07,C01 kind=complete fn=zvariant::dbus::ser::StructSerializer::structure,zvariant::dbus::ser::StructSerializer::end_struct timeout=600
+// @unit C07.struct_ser.structure props=C02,C07,C01 kind=complete fn=zvariant::dbus::ser::StructSerializer::structure,zvariant::dbus::ser::StructSerializer::end_struct timeout=600
 struct_open_unit!(c07_struct_ser_structure__complete, structure, &SIG_STRUCT_YT, 1, 0,
     "C07.struct_ser.structure.ok_iff_within_limits", "C07.struct_ser.structure.depth_incremented", "C07.struct_ser.structure.saved_depth_is_original",
     "C07.struct_ser.structure.end_struct_restores_original_depth", "C07.struct_ser.structure.writes_nothing");
@@ -502,7 +502,7 @@ impl<'p> Serialize for PeekSer<'p> {
     }
 }
 
-// @unit C01.struct_element props=C01,C07 kind=instance bound=struct=(yt),probe-field fn=zvariant::dbus::ser::StructSerializer::serialize_struct_element timeout=900
+// @unit C01.struct_element props=C02,C01,C07 kind=instance bound=struct=(yt),probe-field fn=zvariant::dbus::ser::StructSerializer::serialize_struct_element timeout=900
 #[cfg(kani)]
 #[kani::proof]
 #[kani::stub(alloc::fmt::format, stub_format)]
